@@ -6,6 +6,7 @@ package main
 import (
 	"fmt"
 	"os"
+	"sort"
 	"go/ast"
 	"go/token"
 	"go/types"
@@ -81,6 +82,11 @@ func (e *Engine) intrinsic(fr *Frame, st *State, ins ssa.Instruction, fn *ssa.Fu
 		full = fnKey(fn)
 	}
 	isOurs := strings.HasPrefix(pkgPath, "github.com/gobwas/ws")
+	if isOurs && fn.Signature.Recv() == nil && strings.HasSuffix(name, "Fold") && len(args) == 3 && fn.Pkg != nil {
+		if step := fn.Pkg.Func(name + "Step"); step != nil {
+			return e.foldIntrinsic(fr, st, fn, step, args), true
+		}
+	}
 	if isOurs && fn.Signature.Recv() == nil {
 		switch name {
 		case "ghostOld":
@@ -174,6 +180,8 @@ func (e *Engine) intrinsic(fr *Frame, st *State, ins ssa.Instruction, fn *ssa.Fu
 				}
 			}
 			unsupported("dynTypeIs: unknown type")
+		case "isFoldPlaceholder":
+			return tb.False(), true
 		case "notPartOf":
 			// the backing array of b is not (part of) the object x points to
 			b := args[0].(*Term)
@@ -600,3 +608,158 @@ func (e *Engine) globalAssigned(g *ssa.Global) bool {
 	}
 	return found
 }
+
+
+// foldIntrinsic interprets  XFold(s, p, n)  as the result of feeding p[0:n) to the step function
+// XFoldStep starting from s: an uninterpreted function together with its defining one-step
+// unfolding, added for every occurrence that evaluation creates (not for the occurrences the
+// unfolding itself introduces). The unfolding facts are the definition of a primitive-recursive
+// function, hence consistent.
+func (e *Engine) foldIntrinsic(fr *Frame, st *State, fn, step *ssa.Function, args []Val) *Term {
+	tb := e.tb
+	s0 := args[0].(*Term)
+	p := args[1].(*Term)
+	n := args[2].(*Term)
+	uf := "fold_" + sanitize(fn.Name())
+	tb.DeclareUF(uf, "("+string(s0.Sort)+" "+string(SBytes)+" (_ BitVec 64) (_ BitVec 64)) "+string(s0.Sort))
+	arr := e.region(st, SBV8, e.sBase(p))
+	off := e.sOff(p)
+	mk := func(k *Term) *Term { return tb.App(uf, s0.Sort, s0, arr, off, k) }
+	t := mk(n)
+	if t.open || n.open || s0.open {
+		return t
+	}
+	if e.foldUnfold == nil {
+		e.foldUnfold = map[string]func(t *Term){}
+	}
+	if e.foldUnfold[uf] == nil {
+		stClone := st.clone()
+		e.foldUnfold[uf] = func(t *Term) {
+			if e.foldDone == nil {
+				e.foldDone = map[*Term]bool{}
+			}
+			if e.foldDone[t] || t.open {
+				return
+			}
+			e.foldDone[t] = true
+			s0, arr, off, n := t.Args[0], t.Args[1], t.Args[2], t.Args[3]
+			prev := tb.App(uf, s0.Sort, s0, arr, off, tb.BVBin("bvsub", n, tb.BV(1, 64)))
+			b := tb.Select(arr, tb.BVBin("bvadd", off, tb.BVBin("bvsub", n, tb.BV(1, 64))))
+			child := e.newFrame(step, nil)
+			child.ghost = true
+			e.bindParams(child, []Val{prev, b})
+			tmp := stClone.clone()
+			tmp.cond = tb.True()
+			e.ghostDepth++
+			res, _ := func() ([]Val, *State) {
+				defer func() { e.ghostDepth-- }()
+				return e.runBody(child, tmp)
+			}()
+			stepped := res[0].(*Term)
+			z := tb.BV(0, 64)
+			e.pendingFacts = append(e.pendingFacts,
+				tb.Implies(tb.BVCmp("bvsle", n, z), tb.Eq(t, s0)),
+				tb.Implies(tb.BVCmp("bvsgt", n, z), tb.Eq(t, stepped)))
+		}
+	}
+	e.foldUnfold[uf](t)
+	return t
+}
+
+// unfoldNewFolds adds the one-step unfolding for every closed fold application inside t.
+func (e *Engine) unfoldNewFolds(t *Term) {
+	if len(e.foldUnfold) == 0 {
+		return
+	}
+	vis := map[*Term]bool{}
+	var rec func(t *Term)
+	rec = func(t *Term) {
+		if vis[t] {
+			return
+		}
+		vis[t] = true
+		if t.Op == "app" && !t.open {
+			if f, ok := e.foldUnfold[t.Name]; ok {
+				f(t)
+			}
+		}
+		for _, a := range t.Args {
+			rec(a)
+		}
+	}
+	rec(t)
+}
+
+// existsHints strengthens a goal: every existential  exists j in [lo,hi): body(j)  in positive position
+// is offered the instantiations j := v and j := v+1 for the integer variables v of the current frame.
+// Proving any instance proves the existential, so the replacement goal implies the original one.
+func (e *Engine) existsHints(fr *Frame, st *State, g *Term) *Term {
+	tb := e.tb
+	var cands []*Term
+	seen := map[*Term]bool{}
+	var cells []*Cell
+	for c, v := range st.cells {
+		if v.Sort == SBV64 && c.key != nil && c.name != "" && !strings.Contains(c.name, "$") {
+			cells = append(cells, c)
+		}
+	}
+	sort.Slice(cells, func(i, j int) bool { return cells[i].name < cells[j].name })
+	for _, c := range cells {
+		v := st.cells[c]
+		for _, x := range []*Term{v, tb.BVBin("bvadd", v, tb.BV(1, 64))} {
+			if !seen[x] && !x.open && x.Op != "bvlit" {
+				seen[x] = true
+				cands = append(cands, x)
+			}
+		}
+	}
+	if len(cands) > 40 {
+		cands = cands[:40]
+	}
+	if os.Getenv("GOVC_DEBUG") != "" {
+		fmt.Fprintf(os.Stderr, "EXISTS-HINTS %d candidates:", len(cands)); for _, c := range cells { fmt.Fprintf(os.Stderr, " %s", c.name) }; fmt.Fprintln(os.Stderr)
+	}
+	var rec func(t *Term, pos bool) *Term
+	rec = func(t *Term, pos bool) *Term {
+		switch t.Op {
+		case "and":
+			args := make([]*Term, len(t.Args))
+			for i, a := range t.Args {
+				args[i] = rec(a, pos)
+			}
+			return tb.And(args...)
+		case "or":
+			args := make([]*Term, len(t.Args))
+			for i, a := range t.Args {
+				args[i] = rec(a, pos)
+			}
+			return tb.Or(args...)
+		case "=>":
+			return tb.Implies(t.Args[0], rec(t.Args[1], pos))
+		case "not":
+			in := t.Args[0]
+			if pos && in.Op == "forall" && len(in.Bnd) == 1 && in.Bnd[0].Sort == SBV64 {
+				// not (forall j. rng => not body)  ==  exists j. rng and body
+				alts := []*Term{t}
+				for _, c := range cands {
+					inst := tb.Not(tb.Subst(in.Args[0], map[*Term]*Term{in.Bnd[0]: c}))
+					if !inst.open {
+						e.unfoldNewFolds(inst)
+						alts = append(alts, inst)
+					}
+				}
+				return tb.Or(alts...)
+			}
+		}
+		return t
+	}
+	out := rec(g, true)
+	if e.ghostDepth == 0 && len(e.pendingFacts) > 0 {
+		for _, f := range e.pendingFacts {
+			e.addGlobalFact(f)
+		}
+		e.pendingFacts = nil
+	}
+	return out
+}
+
